@@ -608,6 +608,12 @@ PAIR_GRID = [
     ("permessage-deflate; client_max_window_bits=15; server_max_window_bits=13", {"mem_level": 4}, {"compression_level": 3}),
     ("permessage-deflate; client_max_window_bits=10; server_max_window_bits=15; client_no_context_takeover", {}, {"mem_level": 2}),
 ]
+# offers a server must decline (handshake completes without the extension; nothing may be compressed)
+PAIR_GRID += [
+    ("permessage-deflate; client_max_window_bits=7", {}, {}),
+    ("permessage-deflate; server_max_window_bits=16", {"compression_level": 9}, {}),
+    ("permessage-deflate; client_max_window_bits=8; server_max_window_bits=x", {}, {"compression_level": 1}),
+]
 NO_TAKEOVER = ("client_no_context_takeover", "server_no_context_takeover")
 
 
@@ -725,6 +731,8 @@ class PairReal:
         boundaries and the real receiver must have kept its context too)."""
         if self.params is None:
             for hdr, key, pl in frames:
+                if rsv(hdr):
+                    self.wire_errors.append("reserved bits %d set although no extension was negotiated" % rsv(hdr))
                 if opcode(hdr) < 8 and self.sent[d]:
                     mid = self.sent[d].pop(0)
                     if pl != self.cat.by_id[mid]["data"]:
@@ -948,6 +956,9 @@ def handshake_server_row(row):
             hs.append(("Sec-WebSocket-Version", row["version"]["v"]))
         if row["origin"]["v"] != ABSENT:
             hs.append(("Origin", row["origin"]["v"]))
+        legacy = row["origin"].get("legacy", ABSENT)
+        if legacy != ABSENT:
+            hs.append(("Sec-WebSocket-Origin", "http://" + row["origin"]["host"] if legacy == "host" else legacy))
         if row["sub"]["offer"] != ABSENT:
             hs.append(("Sec-WebSocket-Protocol", row["sub"]["offer"]))
         if row["ext"]["v"] != ABSENT:
@@ -968,6 +979,17 @@ def handshake_server_row(row):
         if obs["status"] == 101 and not side.closed():
             side.feed(encode_header(1, 0, 2, True, 2) + xor_mask(MASK_KEY, b"hi"))
             obs["works"] = any(e[0] == "msg" and e[1] == b"hi" for e in side.events)
+            # what the server then puts on the wire must match what it announced: RSV1 (per-message
+            # compressed) only if its response carried the extension
+            obs["rsv_sent"] = []
+            if side.handler is not None and not side.closed():
+                try:
+                    side.handler.write_message("hello hello hello hello")
+                    side.handler.write_message(b"\x00" * 40, binary=True)
+                except Exception as e:
+                    obs["exceptions"].append(type(e).__name__)
+                env.settle()
+                obs["rsv_sent"] = sorted(set(rsv(f[0]) for f in side.take_frames() if opcode(f[0]) < 8))
         return obs
     finally:
         env.close()
